@@ -231,6 +231,37 @@ struct DC11
 	static void expect(ArgPack & p, int k, int, int val) { p.push(fpOf(KS(k))); p.push(val); }
 };
 
+// exclude-event form with a getEvent policy that is NOT the identity on the first argument
+struct PolGetEventMask { static int getEvent(int id, const TPayload &, int) { return id & 0xff; } typedef eventpp::ArgumentPassingExcludeEvent ArgumentPassingMode; };
+static int KM(int k) { return 1 + k * 3; }
+struct DC12
+{
+	typedef eventpp::EventDispatcher<int, void(const TPayload &, int), PolGetEventMask> D;
+	static const char * name() { return "ED<int,void(const TPayload&,int)> exclude-event form, getEvent policy masks the id"; }
+	static int key(int k) { return KM(k); }
+	static void dispatch(D & d, int k, int eid, int val, uint32_t form) {
+		const int raw = KM(k) | ((1 + (eid % 3)) << 8); // the policy must strip the upper bits
+		if(form == 0) { int kk = raw; TPayload p(eid); int v = val; d.dispatch(kk, p, v); }
+		else if(form == 1) { const int kk = raw; const TPayload p(eid); const int v = val; d.dispatch(kk, p, v); }
+		else d.dispatch(int(raw), TPayload(eid), int(val));
+	}
+	static void expect(ArgPack & p, int, int eid, int val) { p.push(eid); p.push(val); }
+};
+// getEvent policy that takes its argument BY VALUE (a library that forwards into getEvent would let it consume the argument)
+struct PolGetEventMovByValue { static std::string getEvent(EvMov e) { return e.name; } };
+struct DC13
+{
+	typedef eventpp::EventDispatcher<std::string, void(EvMov), PolGetEventMovByValue> D;
+	static const char * name() { return "ED<std::string,void(EvMov)> getEvent takes the by-value movable argument by value"; }
+	static std::string key(int k) { return KS(k); }
+	static void dispatch(D & d, int k, int eid, int, uint32_t form) {
+		if(form == 0) { EvMov e(KS(k), eid); d.dispatch(e); }
+		else if(form == 1) { const EvMov e(KS(k), eid); d.dispatch(e); }
+		else d.dispatch(EvMov(KS(k), eid));
+	}
+	static void expect(ArgPack & p, int k, int eid, int) { p.push(fpOf(KS(k)) * 31 + eid); }
+};
+
 // ------------------------------------------------------------------ world
 struct DMode { int pAct, maxDepth, minOps, maxOps; bool structural; int nd; };
 static DMode dmodeOf(const std::string & m)
@@ -551,12 +582,12 @@ template <bool Enabled, typename Cfg>
 static typename std::enable_if<! Enabled>::type runCfgIf(const DMode &, Rng &, uint64_t, int) {}
 static void skipCase() { --ctx().casesRun; }
 
-enum { NCFG = 12 };
+enum { NCFG = 14 };
 #ifndef VF_CFG_MASK
-#define VF_CFG_MASK 0xfff
+#define VF_CFG_MASK 0xefff
 #endif
 // C20: the same program under a family that differs only in policies (threading, map kind, callback storage, argument passing mode)
-#if (VF_CFG_MASK >> 12) & 1
+#if (VF_CFG_MASK >> 15) & 1
 template <typename Policies, int N>
 struct FamCfg
 {
@@ -603,7 +634,7 @@ static void runCase(uint64_t caseNo, Rng & rng)
 	const int cfg = only >= 0 ? (int)only : (int)(caseNo % NCFG);
 #define VF_CFG(n) case n: if((VF_CFG_MASK >> n) & 1) { runCfgIf<((VF_CFG_MASK >> n) & 1) != 0, DC##n>(mode, rng, caseNo, n); } else { skipCase(); } break;
 	switch(cfg) {
-	VF_CFG(0) VF_CFG(1) VF_CFG(2) VF_CFG(3) VF_CFG(4) VF_CFG(5) VF_CFG(6) VF_CFG(7) VF_CFG(8) VF_CFG(9) VF_CFG(10) VF_CFG(11)
+	VF_CFG(0) VF_CFG(1) VF_CFG(2) VF_CFG(3) VF_CFG(4) VF_CFG(5) VF_CFG(6) VF_CFG(7) VF_CFG(8) VF_CFG(9) VF_CFG(10) VF_CFG(11) VF_CFG(12) VF_CFG(13)
 	default: skipCase(); break;
 	}
 }
